@@ -52,6 +52,7 @@ ASSUMPTIONS = [
 N_VARIANTS = 4
 
 OBLIGATIONS = {
+    "add_same_names_in_another_order": "t1 + t2 where t2 lists the same feature names in another order",
     "remove_by_timestamps": "removeObsList was given timestamps instead of indices",
     "remove_by_timestamps_from_unsorted_track": "... on a track that is not in time order",
     "calendar_sort": "sort / sortRadix on instants spread over 1970, 1999/2000, a leap day, 2038, 2069/2070 and 2099",
@@ -512,7 +513,7 @@ def snap_of_obs(variant, rid, tag, u, nfeat):
 # ---------------------------------------------------------------------------
 # pure operators
 # ---------------------------------------------------------------------------
-PARTNERS = ["self", "root", "two", "empty", "other-table"]
+PARTNERS = ["self", "root", "two", "empty", "other-table", "reordered-table"]
 
 
 def make_partner(which, track, root):
@@ -521,11 +522,14 @@ def make_partner(which, track, root):
         return track
     if which == "root":
         return make_root(root)()
-    if which in ("two", "empty"):
+    if which in ("two", "empty", "reordered-table"):
         p = Track()
         p.addObs(mk_obs(variant, 900, rid, 1, 0))
         p.addObs(mk_obs(variant, 901, rid, 1, 0))
-        for j, nm in enumerate(FEATS):
+        order = list(enumerate(FEATS))
+        if which == "reordered-table":          # the same names, created in the reverse order (a feature removed and computed again)
+            order.reverse()
+        for j, nm in order:
             p.createAnalyticalFeature(nm, [feat(variant, 900)[j], feat(variant, 901)[j]])
         if which == "empty":
             p = clone(p)
@@ -694,6 +698,26 @@ def check_op(root, track, S, names, op, case, ctx):
             if st != "ok" or not isinstance(vals, list) or [float(v) for v in vals] != want:
                 ctx.violation(key + "feature-values-not-carried-over", case, {"feature": nm, "got": vals, "expected": want})
                 return
+    elif k == "add" and partner is not None:
+        # the operands do not list the same names in the same order: whatever the result lists, a value read under a
+        # name must be the value the observation carries under that name in the operand it comes from
+        def listed_values():
+            out = []
+            for nm in names_of(res):
+                vals = res.getAnalyticalFeature(nm)
+                for idx in range(len(exp)):
+                    src, i_loc = (track, idx) if idx < n else (partner, idx - n)
+                    if nm in names_of(src):
+                        own = src.getObsAnalyticalFeature(nm, i_loc)
+                        if float(vals[idx]) != float(own):
+                            return {"feature": nm, "observation": idx, "read": float(vals[idx]), "own_value": float(own)}
+            return None
+        st, bad = guard(listed_values)
+        if st != "ok" or bad:
+            ctx.violation(key + "listed-feature-reads-another-column", case, bad if st == "ok" else bad)
+            return
+        if sorted(np_) == sorted(names) and len(names) >= 2:
+            ctx.oblige("add_same_names_in_another_order")
     st, s2 = guard(snap, track)
     st2, n2 = guard(names_of, track)
     if st != "ok" or st2 != "ok" or s2 != S or n2 != names:
